@@ -35,10 +35,10 @@ def runRoundTrip (cfg : String) (inp : List String) (obs : List String) : Option
     | "a", [bits, sg, h] => do
       let bits ← bits.toNat?; let d ← unhex h; let sg := sg != "0"
       let vals := chunkBE d (bits / 8)
-      some (vals.map (fun v => SOp.rInt bits sg v 10), [SOp.pArrInt bits sg 64 true])
+      some (vals.map (fun v => SOp.rInt bits sg v 10), [SOp.pArrInt bits sg 320 true])
     | _, _ => none
   let cmds : List Cmd := [⟨Result.bytesOf "Q?", 1, emitS⟩, ⟨Result.bytesOf "S", 2, readS⟩]
-  let c0 := Ctx.init cmds [] 5000 8 (cfg != "C")
+  let c0 := Ctx.init cmds [] 8000 8 (cfg != "C")
   let c1 := Ctx.input c0 (Result.bytesOf "Q?\n")
   let out := c1.out.written
   -- exactly one message terminator (CR LF) is removed: the data itself may end in LF / CR bytes
